@@ -450,6 +450,7 @@ impl Prop for C05 {
                         o.class("q/prefix-ending-ff");
                     }
                 }
+                o.count("queries_compared", 1);
                 if let Some(f) = check_query(&mut st.store, ns, &contents, &r, &mut o)? {
                     o.fail(if r.latest { "C05/latest-per-key" } else { "C05/flat" }, f);
                     break;
